@@ -553,9 +553,24 @@ def gen_list_op_wild(rng, spec, cfg, closure_names, i):
     pool = by_cls(spec, elt_classes)
     absent = [p for p in pool if p not in cur]
     m = rng.choice(["append", "insert", "extend", "iadd", "imul", "pop", "remove", "delitem", "setitem", "clear",
-                    "extend", "iadd", "imul", "remove", "pop"])
+                    "extend", "iadd", "imul", "remove", "pop", "extend_self", "iadd_self", "extend_from", "delslice",
+                    "setslice"])
     op = {"op": "list", "obj": name, "attr": attr, "method": m}
     keep_one = attr == "devices"
+    if m == "extend_from":
+        others = [n for n in cands if spec["objs"][n]["cls"] == spec["objs"][name]["cls"]]
+        op["args"] = [rng.choice(others), attr]
+    elif m == "delslice":
+        a = rng.choice([0, 0, 1, len(cur), -1])
+        b = rng.choice([a, a + 1, len(cur), len(cur) + 3, -1])
+        if keep_one and len(cur[:a] + cur[b:] if (a >= 0 and b >= 0) else []) < 1:
+            a, b = len(cur), len(cur) + 2
+        op["args"] = [a, b]
+    elif m == "setslice":
+        a = rng.choice([0, 1, len(cur)])
+        op["args"] = [a, rng.choice([a, a + 1, len(cur)]), [rng.choice(pool) for _ in range(rng.choice([0, 1, 2]))]]
+        if keep_one and not op["args"][2]:
+            op["args"][2] = [rng.choice(pool)]
     if m == "append":
         op["args"] = [rng.choice(cur if cur and rng.random() < 0.3 else pool)]
     elif m == "insert":
@@ -714,7 +729,12 @@ def gen_cross_system(rng, spec, cfg, closure_names, i):
     if not cands:
         return None
     target, attr, method, arg = rng.choice(cands)
-    return {"op": "cross_system", "suffix": sfx, "target": target, "attr": attr, "method": method, "arg": arg}
+    op = {"op": "cross_system", "suffix": sfx, "target": target, "attr": attr, "method": method, "arg": arg}
+    if rng.random() < 0.4 and cls[arg] in ("UsagePattern", "UsageJourney", "UsageJourneyStep") + tuple(S.JOB_CLASSES):
+        # indirect: not the object of the first system itself, but a fresh copy of it (same links, no system yet)
+        op["fresh_copy_of"] = arg
+        op["arg"] = f"fresh_{i}"
+    return op
 
 
 C16_MIX = [
@@ -752,7 +772,7 @@ def simulation_date(rng, spec, kind=None):
     t = t0 + timedelta(hours=off)
     if kind == "naive":
         return t.isoformat(), kind
-    tz = pytz.timezone(zone)
+    tz = gen.timezone_of(zone)
     aware = tz.localize(t, is_dst=True)
     return aware.isoformat(), kind
 
